@@ -41,7 +41,11 @@ M = {
         "deepcopy-shares-paths": ("compose/graph_call_options.go", "\t\tnPath := *path\n\t\tnPaths[i] = &nPath", "\t\tnPaths[i] = path"),
         "half-fix-designate-appends-in-place": ("compose/graph_call_options.go", "\tnPaths := make([]*NodePath, 0, len(o.paths)+len(path))\n\tnPaths = append(nPaths, o.paths...)\n\to.paths = append(nPaths, path...)",
                                                 "\to.paths = append(o.paths, path...)"),
-        "optmap-cached-on-runner": None,  # placeholder for a hand-made mutation (see notes)
+        # options of an earlier call on the same compiled graph are merged into the next call's (needs two calls on one runnable)
+        "options-leak-into-next-call": ("compose/graph_run.go",
+                                        "\toptMap, extractErr := extractOption(r.chanSubscribeTo, opts...)\n\tif extractErr != nil {",
+                                        "\toptMap, extractErr := extractOption(r.chanSubscribeTo, opts...)\n\tif extractErr == nil {\n\t\tvmLeakMu.Lock()\n\t\tfor k, v := range vmLeak[r] {\n\t\t\toptMap[k] = append(optMap[k], v...)\n\t\t}\n\t\tif vmLeak == nil {\n\t\t\tvmLeak = map[*runner]map[string][]any{}\n\t\t}\n\t\tcp := map[string][]any{}\n\t\tfor k, v := range optMap {\n\t\t\tcp[k] = append([]any{}, v...)\n\t\t}\n\t\tvmLeak[r] = cp\n\t\tvmLeakMu.Unlock()\n\t}\n\tif extractErr != nil {",
+                                        "\nfunc runnableInvoke(", "\nvar vmLeak map[*runner]map[string][]any\nvar vmLeakMu sync.Mutex\n\nfunc runnableInvoke("),
     },
 }
 
@@ -56,7 +60,8 @@ def main():
     names = sys.argv[2:] or [k for k, v in M[prop].items() if v]
     results = []
     for name in names:
-        f, old, new = M[prop][name]
+        f, old, new = M[prop][name][:3]
+        more = M[prop][name][3:]
         wt = "/tmp/wt-cb-mut-%s" % name
         sh("git -C /repo worktree remove --force %s" % wt)
         code, out = sh("git -C /repo worktree add --detach %s HEAD" % wt)
@@ -74,7 +79,12 @@ def main():
             if s.count(old) != 1:
                 print(name, "MUTATION DOES NOT APPLY (count=%d)" % s.count(old))
                 continue
-            open(p, "w").write(s.replace(old, new))
+            s = s.replace(old, new)
+            for i in range(0, len(more), 2):
+                if s.count(more[i]) < 1:
+                    print(name, "EXTRA REPLACEMENT DOES NOT APPLY", more[i][:40])
+                s = s.replace(more[i], more[i + 1], 1)
+            open(p, "w").write(s)
             c1, o1 = sh("go build ./... ", cwd=wt)
             t0 = time.time()
             c2, o2 = sh("go test -vet=off -count=1 ./compose/ ./callbacks/ ./internal/callbacks/", cwd=wt)
